@@ -205,6 +205,21 @@ static void tamper_check(const char *suite, Tcount &tc, int T, const bytes &key,
 // files whose ciphertext has a sentinel value (0xFF = (char)EOF, 0x00, '\n', 0x1A) exactly at a chunk boundary or at a refill boundary of the
 // hash buffer: stream modes let the harness choose the ciphertext byte (P' = P xor C xor sentinel); they must round-trip, and any change
 // behind the boundary must be rejected
+// every residue class of the authenticated region modulo the hash block: T x hash x body blocks 1..4 (the region [48, EOF) has 20T + 16nb bytes).
+// A final-block defect of a hash that leaves the LAST bytes of the region outside the tag needs one particular residue; random lengths met it by
+// luck only (seed C05-r7 was missed after the random stream shifted in round 8). Deterministic, a few cheap alterations of the tail per file.
+static void residue_cases(Rng &rng, const char *suite, Tcount &tc) {
+  for (int T : {1, 2, 3}) for (int h : {0, 1, 2}) for (int nb = 1; nb <= 4; nb++) {
+    int c = (T + h + nb) % 5; size_t n = 16 * (size_t)(nb - 1) + rng.below(16);
+    bytes key = rng.key16(), seed = rng.nzbuf(7), plain = rng.padlike(n);
+    EncRes e = real_enc(T, c, h, key, seed, plain); const bytes &F = e.file; if (F.size() < 64) continue;
+    std::string id = " (residue case T=" + S(T) + " h=" + S(h) + " blocks=" + S(nb) + ")";
+    for (size_t back = 1; back <= 8; back++) { bytes m = F; m[F.size() - back] ^= (unsigned char)(1u << (back % 8)); tamper_check(suite, tc, T, key, F, plain, m, "bit flip " + S((long)back) + " from the end" + id, back == 1); }
+    { bytes m = F; for (size_t back = 1; back <= 4; back++) m[F.size() - back] ^= 0xA5; tamper_check(suite, tc, T, key, F, plain, m, "last four bytes changed" + id, false); }
+    { bytes m(F.begin(), F.end() - 16); tamper_check(suite, tc, T, key, F, plain, m, "last block removed" + id, false); }
+  }
+}
+
 static void sentinel_cases(Rng &rng, const char *suite, Tcount &tc) {
   size_t chunk = 16 * (size_t)BSZ; long made = 0;
   for (int c : {2, 4}) for (int T : {1, 2}) {
@@ -280,6 +295,7 @@ static void suite_tamper(Rng &rng) {
     // changes confined to the zero-filled gap carry no information: still the original plaintext
     { int hl = hlen_of(h); if (10 + hl < 48) { bytes m = F; for (int i = 10 + hl; i < 48; i++) m[i] = (unsigned char)rng.next(); DecRes d = real_dec(T, key, m); if (!(d.ok && d.out == plain)) { /* rejecting is also fine for the property; accepting with other bytes is not */ if (d.ok) emitA(suite, "C05", "gap-only modification changes the plaintext key=" + hex(key) + " file=" + hex(m)); } } }
   }
+  residue_cases(rng, suite, tc);
   emitI(suite, "tamperings", S(tc.total)); emitI(suite, "rejected", S(tc.rejected)); emitI(suite, "accepted_same_plaintext", S(tc.accepted_same)); emitI(suite, "k1_hits", S(tc.k1));
 }
 
